@@ -8,7 +8,8 @@ PAR = int(os.environ.get('SEED_MATRIX_PAR', '3'))
 # seeds that break their property only in a way another property's check is the natural detector of
 ALSO = {'C03-lock-only-around-batch': ['C10'], 'C13-lock-only-around-batch': ['C10'],
         'C03-parse-policy-shared-operation-dict': ['C18'], 'C08-lock-only-around-batch': ['C10'],
-        'C03-locate-filters-before-access-check': ['C14']}
+        'C03-locate-filters-before-access-check': ['C14'],
+        'C11-lock-only-around-process-batch': ['C10']}
 what = sys.argv[1] if len(sys.argv) > 1 else 'all'
 rows = []
 def run(patch, prop):
